@@ -707,3 +707,39 @@ def backend_dispatch(rep, ex: Explorer):
             bad.append(ast.unparse(par) if par is not None else "?")
         rep.check(not bad, "BACKEND.engine-neutral", site2, "engine name uses", "the engine name only selects the SAT engine of RC2", extracted="; ".join(bad) or "RC2(solver=...) only",
                   required="RC2(solver=engine)", function=site2)
+
+
+# ----------------------------------------------------------------------------------------------
+PRESENTATION = ("text", "signature", "bbname", "weak", "str", "repr")
+
+
+def _mentions_presentation(x):
+    if isinstance(x, tuple):
+        if x and x[0] in PRESENTATION and len(x) >= 2:
+            return x
+        for i in x:
+            r = _mentions_presentation(i)
+            if r:
+                return r
+    return None
+
+
+def noninterference(rep, ex: Explorer, site, paths):
+    """NONINTERF: presentation attributes (text representation, base name, declared signature) never reach a decision
+    or a returned answer of an operator - they may only be copied into reports, logs and derived objects."""
+    from ..absvals import desc as _desc
+
+    bad = None
+    n = 0
+    for p in paths:
+        for key, val in p.decisions:
+            n += 1
+            m = _mentions_presentation(key)
+            if m:
+                bad = ("decision", key)
+        if p.outcome[0] == "return":
+            m = _mentions_presentation(_desc(p.outcome[1]))
+            if m:
+                bad = ("answer", _desc(p.outcome[1]))
+    rep.check(bad is None, "NONINTERF", site, "presentation attributes", "no decision and no answer depends on the text, name or declared signature of the input",
+              extracted=f"{bad[0]} depends on {F.show_desc(bad[1])[:160]}" if bad else f"{n} decisions free of presentation attributes", required="independent", function=site)
